@@ -153,5 +153,10 @@ def file_loader_obligation(rep):
             opens = [n for n in core.walk_own(f1) if isinstance(n, ast.Call) and ast.unparse(n.func) == 'open']
             if len(opens) != 1 or not opens[0].args or ast.unparse(opens[0].args[0]) != f1.args.args[1].arg:
                 probs.append('the file opened is not the parameter')
+            else:
+                # the compiler writes utf8 (C16/C19): a loader that names an encoding names that one
+                enc = {k.arg: k.value for k in opens[0].keywords}.get('encoding') or (opens[0].args[3] if len(opens[0].args) > 3 else None)
+                if enc is not None and not (isinstance(enc, ast.Constant) and str(enc.value).lower().replace('-', '') in ('utf8', 'utf8sig')):
+                    probs.append('the script file is decoded as %s, the compiler writes utf8' % ast.unparse(enc))
     rep.add_checked('engine.YP.load_script_from_file.same_as_from_string', not probs, '; '.join(probs), 'ast',
                     function='engine.YP.load_script_from_file', witness=probs or None)
